@@ -116,4 +116,20 @@ def cnt (H : Hooks) (o : Observable) (q : NKey) : Nat := cntList q (H.get o)
 def cntItems (l : List Item) (o : Observable) (q : NKey) : Nat :=
   l.countP (fun it => it.1 == o && it.2.equals q)
 
+/-- SPECIFICATION.  Number of paths from `x` along `g`, in heap `h`, that end in a
+*notifying* node at observable `o` — computed from scratch.  It is what the
+reference count of the user notifier on `o` has to be (0 = absent). -/
+def reach (h : Heap) (k : HKey) (g : Graph) (x : W) (o : Observable) : Nat :=
+  cntItems (hookList h k true g x) o (.user k)
+
+/-- A registration: handler key, graph, root object. -/
+structure Reg where
+  k : HKey
+  g : Graph
+  x : Id
+
+/-- SPECIFICATION.  What all active registrations together owe at `(o, q)`. -/
+def specCnt (h : Heap) (regs : List Reg) (o : Observable) (q : NKey) : Nat :=
+  (regs.map (fun r => cntItems (hookList h r.k true r.g (some r.x)) o q)).sum
+
 end TraitsVerif.Model.Obs
